@@ -867,12 +867,23 @@ def check(ctx, cases, outs):
                 ctx.count("hyp:one-candidate-row-but-0-passes(covered by C01_lapjv_ref_fixed_correct_k0)")
             if not two and cases[k]["k"] > 0:
                 ctx.count("hyp:one-candidate-row,k>=1:" + ("no-pending-row-after-ARR(covered by C01_lapjv_ref_fixed_correct_nofree)"
-                                                            if a == 2 else "augment-runs(checker only)" if a == 1 else "premise-fails"))
+                                                            if a == 2 else "augment-runs-over-reserved-columns(covered by C01_lapjv_ref_fixed_correct_partial, round 14)" if a == 1 else "premise-fails"))
             two = two or cases[k]["k"] == 0 or a == 2          # from here on: "covered by an end-to-end theorem"
             prem = (a in (1, 2))
+            # END-TO-END COVERAGE TABLE (evidence: coverage.distribution, keys "E2E/...").  Since round 14
+            # C01_lapjv_ref_fixed_correct_partial has arr_returns_b as its only premise: every case on which it holds is covered
+            # end to end by a theorem about the reference variant (returns, optimal, inverse permutations).
+            if prem:
+                ctx.count("E2E/covered-by-theorem:total")
+                ctx.count("E2E/covered-by-theorem:" + (">=2-candidates-per-row" if min(rows.values()) >= 2 else
+                                                       "one-candidate-row,0-passes" if cases[k]["k"] == 0 else
+                                                       "one-candidate-row,k>=1,no-pending-row-after-ARR" if a == 2 else
+                                                       "one-candidate-row,k>=1,augment-runs-over-reserved-columns"))
+            else:
+                ctx.count("E2E/checker-only(premise arr_returns_b fails: model fuel)")
             ctx.count("hyp:arr-returns(premise of C01_lapjv_ref_fixed_total_partial)" + (":holds" if prem else ":FAILS")
                       + ("" if two else "(one-candidate row)"))
-            if res[k] is None and (two or not prem) and prem != (m is not None):
+            if res[k] is None and prem != (m is not None):
                 res[k] = ("INTERNAL: arr_returns_b = %s but the extracted reference model (Fixed, eps 0, true infinity) %s - "
                           "contradicts C01_lapjv_ref_fixed_total_partial / C01_lapjv_ref_returns_arr"
                           % (prem, "returned" if m is not None else "gave no result"))
@@ -884,12 +895,12 @@ def check(ctx, cases, outs):
                 continue
             ctx.count("hyp:fixed-model-returns")
             if g:
-                ctx.count("fixed-model-certified" + ("(theorem-covered)" if two else "(one-candidate rows: checker only)"))
+                ctx.count("fixed-model-certified(theorem-covered)")
             elif two and res[k] is None:
                 res[k] = ("INTERNAL: the extracted (Fixed, eps 0) model returned a result that cert_ok rejects on an input "
                           "satisfying the premises of the proved theorem C01_lapjv_fixed_optimal")
             else:
-                ctx.count("fixed-model-uncertified(one-candidate rows, infinite duals)")
+                ctx.count("fixed-model-uncertified(theorem-covered; one-candidate rows, infinite duals are outside cert_ok)")
     ti = [k for k, c in enumerate(cases) if c["fn"] == "track" and not _bad(outs[k])]
     oks = ctx.run_model("entry_track_ok", [outs[k]["pairs"] for k in ti]) if ti else []
     pm_args, pm_own = [], []
@@ -1061,7 +1072,7 @@ def shrink_candidates(case):
 
 MANIFEST = {
     "level_text": (
-        "Machine-checked proofs (Coq 8.16, 67 theorems, all closed under the global context) about (a) the certificate "
+        "Machine-checked proofs (Coq 8.16, 69 theorems, all closed under the global context) about (a) the certificate "
         "checker cert_ok that is run, extracted, on the implementation's own (x, y, u, v): acceptance implies x is a "
         "minimum-cost perfect matching over listed pairs, y its inverse and (u, v) a dual certificate, for every n and every "
         "sparsity pattern; (b) a line-level executable Gallina model of lapjv.py + _lapjv.pyx with switches rt in {AsIs, Fixed}, "
@@ -1080,7 +1091,9 @@ MANIFEST = {
         "a Hall-block argument (C01_aug_scan_nonempty_ref), hence augment ALWAYS RETURNS (C01_lapjv_ref_augment_total). End to "
         "end for the reference variant: with augmenting_row_reductions = 0, for EVERY input of the quantifier (one-candidate "
         "rows included) the solver returns an optimal perfect matching with inverse permutations - no premise left "
-        "(C01_lapjv_ref_fixed_correct_k0); with k >= 1 passes and >= 2 candidates per row the same under the single premise "
+        "(C01_lapjv_ref_fixed_correct_k0); with k >= 1 passes the same for EVERY input of the quantifier (one-candidate rows "
+        "included since round 14: the Dijkstra invariant over prices in Fin | -inf, Proofs.LapjvAugDistE, and augment preserving "
+        "InvE + Ord, C01_aug_rows_all_ext) under the single premise "
         "arr_returns_b that the eps-retry passes of augmenting row reduction return within the model's fuel "
         "(C01_lapjv_ref_fixed_correct_partial, _grid_partial for the code's eps on coarser cost grids); for one-candidate rows "
         "with k >= 1 the order invariant on the reserved (-inf priced) block is carried through augmenting row reduction "
@@ -1106,7 +1119,7 @@ MANIFEST = {
         "them; the verified checker still covers the code's answer on them only if generated - they are not). The premise (executable: Model.Lapjv.arr_returns_b, extracted entry_arr) is "
         "evaluated on every generated case and cross-checked against the theorems (premise <=> the reference model returns). "
         "For the sentinel variant additionally the adequacy of inf. "
-        "Still open: inputs with single-candidate rows AND k >= 1 passes on which augment actually runs (the loop invariant K over InvE; reserved columns are non-edges for the Dijkstra loop). "
+        "Closed in round 14: inputs with single-candidate rows AND k >= 1 passes on which augment runs (loop invariant K over InvE; reserved columns are non-edges for the Dijkstra loop). The evidence carries the end-to-end coverage table (coverage.distribution, keys E2E/...). "
         "optimality for inputs with single-candidate rows AND k >= 1 passes (-inf prices): the price-update core over InvE and the "
         "spec-level reserved-block lemma are proved. Both hypotheses are evaluated on every generated case by the check (the "
         "repaired model returns; rows with >= 2 candidates are theorem-covered, the others checker-only) and both clauses are "
